@@ -5,6 +5,7 @@ import PcVerif.Model.Langs
 import PcVerif.Model.SamiWriter
 import PcVerif.Props.C02
 import PcVerif.Lemmas.SamiStyleLemmas
+import PcVerif.Lemmas.SamiPlanLemmas
 namespace PcVerif.Props.C14
 open PcVerif PcVerif.Langs PcVerif.SamiW
 
@@ -97,6 +98,38 @@ theorem primary_syncs_sorted (caps : List (Rat × Rat)) (hw : WellTimed 0 caps) 
     NonDecFrom 0 ((plan [caps]).map (·.start)) := by
   rw [Props.C02.sami_single_language_plan]
   exact specPrimary_sorted 0 none 0 0 caps hw (by intro e he; cases he)
+
+private theorem nonDecFrom_pairwise : ∀ (l : List Nat) (lo : Nat), NonDecFrom lo l → (∀ x ∈ l, lo ≤ x) ∧ l.Pairwise (· ≤ ·) := by
+  intro l
+  induction l with
+  | nil => intro lo _; exact ⟨by simp, List.Pairwise.nil⟩
+  | cons x xs ih =>
+    intro lo h
+    obtain ⟨h1, h2⟩ := h
+    obtain ⟨h3, h4⟩ := ih x h2
+    refine ⟨?_, List.pairwise_cons.mpr ⟨h3, h4⟩⟩
+    intro y hy
+    rcases List.mem_cons.mp hy with rfl | hy
+    · exact h1
+    · exact Nat.le_trans h1 (h3 y hy)
+
+/-- **C14 (SYNC order, any number of languages).** when the cues of the first (primary) language are sorted and do not
+    overlap, the SYNC blocks of the whole document are in non-decreasing time order — whatever the cues of the other
+    languages are (unsorted, overlapping, before the primary language's first cue): each of their blocks is looked up or
+    inserted in place -/
+theorem plan_sorted (first : List (Rat × Rat)) (others : List (List (Rat × Rat))) (hw : WellTimed 0 first) :
+    Sorted (plan (first :: others)) := by
+  unfold plan
+  simp only [writeLoop]
+  have h0 : langLoop 0 (decide True) [] none 0 first = plan [first] := by simp [plan, writeLoop]
+  rw [h0]
+  exact writeLoop_sorted others _ 1 (by decide) (nonDecFrom_pairwise _ 0 (primary_syncs_sorted first hw)).2
+
+/-- **C14 (paragraphs in the block of their start time).** in the SAMI document written for ANY caption set — any number
+    of languages, any cues — every paragraph that carries a cue's text is in a SYNC block whose start is that cue's start
+    millisecond -/
+theorem paragraphs_in_own_block (langs : List (List (Rat × Rat))) : InOwn langs (plan langs) :=
+  SamiW.paragraphs_in_own_block langs
 
 /-! ### SAMI output: every language is declared in the stylesheet -/
 
